@@ -251,7 +251,11 @@ impl TDigestMut {
         for &c in &other.centroids {
             tmp.push(c);
         }
-        self.do_merge(tmp, self.buffer.len() as u64 + other.total_weight())
+        self.do_merge(tmp, self.buffer.len() as u64 + other.total_weight());
+        // the other digest's extremes need not be centroid means (a decoded digest may start or end
+        // with a centroid that stands for several values)
+        self.min = self.min.min(other.min);
+        self.max = self.max.max(other.max);
     }
 
     /// Freezes this TDigest into an immutable one.
@@ -1168,11 +1172,6 @@ impl TDigestView<'_> {
             return None;
         }
 
-        if self.centroids.len() == 1 {
-            return Some(self.centroids[0].mean);
-        }
-
-        // at least 2 centroids
         let centroids_weight = self.centroids_weight as f64;
         let num_centroids = self.centroids.len();
         let weight = rank * centroids_weight;
@@ -1181,6 +1180,11 @@ impl TDigestView<'_> {
         }
         if weight > centroids_weight - 1. {
             return Some(self.max);
+        }
+        // a single centroid that stands for several values: the tails below interpolate towards
+        // min and max; a single value is its own quantile everywhere
+        if num_centroids == 1 && self.centroids[0].weight.get() == 1 {
+            return Some(self.centroids[0].mean);
         }
         let first_weight = self.centroids[0].weight();
         if first_weight > 1. && weight < first_weight / 2. {
